@@ -243,4 +243,48 @@ theorem timeout_within_budget_absorbed (serve : Name → Bool → Option Pkt) (c
   simp only [Client.step, hp, hl, if_true]
   simp [Client.getCons, Client.setCons, List.getD_eq_getElem?_getD, List.getElem?_set, ho]
 
+/-! ### Produce and Consume together -/
+
+/-- what Produce stores (last input buffer not empty): the packets `segPkt` of `segments bufs` under
+    the returned name `<name>/v=ver` — segment `i` named `<name>/v/seg=i`, FinalBlockId = number of the
+    last segment — followed by the metadata packet `<name>/32=metadata/v/seg=0` whose content names
+    `<name>/v` and that FinalBlockId -/
+theorem produce_packets (name : Name) (ver : Nat) (bufs : List Bytes) (hlast : LastNonempty bufs) (hne : bufs ≠ []) :
+    let base := name ++ [verComp ver]
+    let segs := segments bufs
+    let fb := segComp (segs.length - 1)
+    let mname := name ++ [metaKw, verComp ver, segComp 0]
+    produce name ver bufs = some
+      { ret := base,
+        puts := ((List.range segs.length).map fun i => (⟨base ++ [segComp i], ver, segPkt base segs i⟩ : Put)) ++
+          [⟨mname, ver, { name := mname, fb := some fb, content := encMeta base (encComp fb), md := some (base, encComp fb) }⟩] } := by
+  intro base segs fb mname
+  have hpos := lastNonempty_totalLen_pos bufs hne hlast
+  have hcnt := (segments_count bufs hlast hne).1
+  have hlastSeg : (totalLen bufs - 1) / segSize = segs.length - 1 := by
+    show _ = (segments bufs).length - 1
+    rw [hcnt]; rfl
+  unfold produce
+  have hz : ¬ totalLen bufs = 0 := by omega
+  simp only [hz, if_false, hlastSeg]
+  congr 2
+  congr 1
+  rw [zip_range_map (segments bufs) []]
+  rfl
+
+/-- Round trip: content of any non-zero size, split into input buffers in any way (last buffer not
+    empty), published by Produce and fetched segment by segment in ANY arrival order, reaches the
+    consumer's callback byte-for-byte, with exactly one completion report and no error. -/
+theorem publish_retrieve_roundtrip (name : Name) (ver : Nat) (bufs : List Bytes) (order : List Nat)
+    (hlast : LastNonempty bufs) (hne : bufs ≠ []) (hmax : (segments bufs).length ≤ maxObjectSeg)
+    (hperm : order.Perm (List.range (segments bufs).length)) :
+    let r := runFetch {} (order.map fun i => Arrival.data (segPkt (name ++ [verComp ver]) (segments bufs) i))
+    (r.2.map (·.chunk)).flatten = bufs.flatten ∧ r.1.complete = true ∧ r.1.err = false ∧
+    (r.2.filter (·.complete)).length = 1 := by
+  intro r
+  have hs : segments bufs ≠ [] := fun e => hne ((segments_eq_nil bufs).mp e)
+  have := fetch_any_order (name ++ [verComp ver]) (segments bufs) order hs (segments_nonempty bufs hlast) hmax hperm
+  obtain ⟨h1, h2, h3, h4, _, _⟩ := this
+  exact ⟨by rw [← segments_concat bufs]; exact h1, h2, h3, h4⟩
+
 end Ndn.C15
